@@ -505,4 +505,54 @@ theorem detachedWith_iff (P : Prims) (v : Version) (signer nonce msg M : Bytes) 
       rfl
   · simp [hk]
 
+/-! ## what a successful setup says about the configuration -/
+
+theorem encryptSetup_cfg (P : Prims) (bs : Nat) (pieces : Bytes → List Bytes) (v : Version) (sender : Option Bytes)
+    (rs : List Encrypt.Recipient) (eph pk hbytes : Bytes) (cfg : Cfg)
+    (hs : encryptSetup P bs pieces v sender rs eph pk = .ok (hbytes, cfg)) :
+    cfg.bs = bs ∧ cfg.pieces = pieces ∧ cfg.v1shape = (v == v1) ∧ IndexFail cfg.pkt := by
+  unfold encryptSetup at hs
+  by_cases hk : knownVersion v = true
+  · simp only [hk, Bool.not_true, Bool.false_eq_true, if_false] at hs
+    cases hc : Encrypt.checkReceivers rs with
+    | error e => simp [hc] at hs
+    | ok u =>
+      simp only [hc] at hs
+      cases hh : Encrypt.header P v sender eph pk rs with
+      | error e => simp [hh] at hs
+      | ok h =>
+        simp only [hh] at hs
+        cases hm : Encrypt.macKeysSender P v (sender.getD eph) eph (P.hash (encode h.toVal)) rs 0 with
+        | error e => simp [hm] at hs
+        | ok mks =>
+          simp only [hm] at hs
+          injection hs with hs
+          obtain ⟨_, rfl⟩ := Prod.mk.inj hs
+          exact ⟨rfl, rfl, rfl, encPkt_indexFail P v pk _ mks⟩
+  · simp [hk] at hs
+
+theorem signSetup_cfg (P : Prims) (bs : Nat) (pieces : Bytes → List Bytes) (v : Version) (signer nonce hbytes : Bytes)
+    (cfg : Cfg) (hs : signSetup P bs pieces v signer nonce = .ok (hbytes, cfg)) :
+    cfg.bs = bs ∧ cfg.pieces = pieces ∧ cfg.v1shape = (v == v1) ∧ IndexFail cfg.pkt := by
+  unfold signSetup at hs
+  by_cases hk : knownVersion v = true
+  · simp only [hk, Bool.not_true, Bool.false_eq_true, if_false] at hs
+    injection hs with hs
+    obtain ⟨_, rfl⟩ := Prod.mk.inj hs
+    exact ⟨rfl, rfl, rfl, sigPkt_indexFail P v signer _⟩
+  · simp [hk] at hs
+
+theorem signcryptSetup_cfg (P : Prims) (bs : Nat) (pieces : Bytes → List Bytes) (sender : Option Bytes)
+    (rs : List Signcrypt.Recipient) (eph pk hbytes : Bytes) (cfg : Cfg)
+    (hs : signcryptSetup P bs pieces sender rs eph pk = .ok (hbytes, cfg)) :
+    cfg.bs = bs ∧ cfg.pieces = pieces ∧ cfg.v1shape = (v2 == v1) ∧ IndexFail cfg.pkt := by
+  unfold signcryptSetup at hs
+  cases hc : Signcrypt.checkReceivers rs [] with
+  | error e => simp [hc] at hs
+  | ok u =>
+    simp only [hc] at hs
+    injection hs with hs
+    obtain ⟨_, rfl⟩ := Prod.mk.inj hs
+    exact ⟨rfl, rfl, (by decide : false = (v2 == v1)), scPkt_indexFail P sender pk _⟩
+
 end Saltpack.Proofs.SenderP
